@@ -25,7 +25,8 @@ func TestExt07AgainstNativeGo(t *testing.T) {
 		t.Skip("coqc not found")
 	}
 	body, err := Translate(".", TransSpec{Dir: "internal/sample",
-		Funcs: []string{"Fill", "Pad", "Upper7", "EscStr", "EscBytes", "Scratch", "Two", "Enc", "Dec", "DecB", "Count7", "U16", "U16d", "AppRune", "Num7", "Zero7"},
+		Funcs:    []string{"Fill", "Pad", "Upper7", "EscStr", "EscBytes", "Scratch", "Two", "Enc", "Dec", "DecB", "Count7", "U16", "U16d", "AppRune", "Num7", "Zero7", "CountBytes7"},
+		Identity: []string{"AsString"},
 		Std: []string{"strconv.AppendUint", "unicode/utf8.EncodeRune", "unicode/utf8.DecodeRuneInString", "unicode/utf8.DecodeRune",
 			"unicode/utf8.RuneCountInString", "unicode/utf8.AppendRune", "unicode/utf16.EncodeRune", "unicode/utf16.DecodeRune"},
 		WrapSigned: true, InPlace: true})
@@ -80,6 +81,7 @@ func TestExt07AgainstNativeGo(t *testing.T) {
 			add(fmt.Sprintf("g_EscBytes 99 %s %s", bl([]byte(s)), zs(w)), func() string { return bl(sample.EscBytes([]byte(s), w)) })
 		}
 		add("g_Count7 "+bl([]byte(s)), func() string { return zs(sample.Count7(s)) })
+		add("g_CountBytes7 "+bl([]byte(s)), func() string { return zs(sample.CountBytes7([]byte(s))) })
 		add("g_DecB "+bl([]byte(s)), func() string { r, n := sample.DecB([]byte(s)); return "(" + zs(int(r)) + ", " + zs(n) + ")" })
 		for _, i := range []int{-1, 0, 1, 2, 3, 5, 14} {
 			i := i
